@@ -4,6 +4,7 @@ import (
 	"fmt"
 	"go/constant"
 	"sort"
+	"strconv"
 	"strings"
 
 	"golang.org/x/tools/go/ssa"
@@ -22,6 +23,8 @@ func runC20(c *Check, tier string) {
 	ruleR20c(c)
 	ruleR20d(c)
 	ruleMemoKeyComplete(c, "R20f", "hashing", "dag", "selection", "cmd", "loading")
+	ruleEdgesFromAllNodes(c, "R20g")
+	ruleNoDigestInDescription(c, "R20h")
 }
 
 // cobraCommands maps the `Use` word of each cobra command to its Run function.
@@ -409,4 +412,105 @@ func ruleR20d(c *Check) {
 		}
 		c.Require(ok, "R20e", "input-path/"+name, "compares GetPathAbsoluteToWorkspaceRoot(filepath.Join(package, resolved input))", why, c.P.Pos(fn.Pos()))
 	}
+}
+
+// R20g: what a query answers and what a build walks is one graph. Wherever edges are added to a graph from the
+// loaded nodes, the loop ranges over the whole node map and over each node's GetDependencies() through the
+// BuildNode interface — aliases contribute their alias -> actual edge like targets contribute theirs; a builder
+// that ranges over the targets only yields a graph in which nothing is reachable through an alias.
+func ruleEdgesFromAllNodes(c *Check, rule string) {
+	c.Rule(rule, "every call of the graph's edge-adding function outside internal/dag sits in a loop over a model.BuildNodeMap (all node kinds) and a loop over the result of BuildNode.GetDependencies() called through the interface", 1)
+	addEdge := anchor(c, rule, "dag", "DirectedTargetGraph", "AddEdge")
+	if addEdge == nil {
+		return
+	}
+	var loopsOf func(at ssa.Instruction, depth int) []*engine.Loop
+	loopsOf = func(at ssa.Instruction, depth int) []*engine.Loop {
+		loops := engine.LoopsContaining(at)
+		if depth < 2 {
+			if callers := c.G.CallersOf(at.Parent()); len(callers) == 1 {
+				loops = append(loops, loopsOf(callers[0], depth+1)...)
+			}
+		}
+		return loops
+	}
+	n := 0
+	for _, s := range c.G.CallersOf(addEdge) {
+		fn := s.Parent()
+		if engine.InPackage(fn, "dag") {
+			continue // copies between graphs (subgraph construction) start from edges that exist
+		}
+		// only builders: functions that create the graph they add edges to
+		builds := false
+		for _, cs := range engine.SitesIn(fn) {
+			if h := cs.Common().StaticCallee(); h != nil && engine.InPackage(h, "dag") && h.Signature.Recv() == nil && h.Signature.Results().Len() > 0 && engine.TypeKey(h.Signature.Results().At(0).Type()) == "dag.DirectedTargetGraph" {
+				builds = true
+			}
+		}
+		if !builds {
+			if callers := c.G.CallersOf(fn); len(callers) == 1 {
+				for _, cs := range engine.SitesIn(callers[0].Parent()) {
+					if h := cs.Common().StaticCallee(); h != nil && engine.InPackage(h, "dag") && h.Signature.Recv() == nil && h.Signature.Results().Len() > 0 && engine.TypeKey(h.Signature.Results().At(0).Type()) == "dag.DirectedTargetGraph" {
+						builds = true
+					}
+				}
+			}
+		}
+		if !builds {
+			continue // an edge added to a finished graph for one extra node (`grog run script`)
+		}
+		n++
+		allNodes, viaIface := false, false
+		for _, lp := range loopsOf(s, 0) {
+			rv := lp.RangedValue()
+			if rv == nil {
+				continue
+			}
+			if engine.TypeKey(rv.Type()) == "model.BuildNodeMap" {
+				allNodes = true
+			}
+			for _, o := range engine.Origins(rv) {
+				if call, _ := engine.CallOf(o); call != nil && call.Common().IsInvoke() && call.Common().Method.Name() == "GetDependencies" {
+					viaIface = true
+				}
+			}
+		}
+		what := ""
+		switch {
+		case !allNodes:
+			what = "the edges are not added in a loop over the whole node map (a narrowed view such as the targets only leaves out the alias nodes)"
+		case !viaIface:
+			what = "the dependencies are not taken from BuildNode.GetDependencies() through the interface (an alias's edge to its actual target is then missing)"
+		}
+		c.Require(what == "", rule, "edges-from-all-nodes/"+c.P.FuncName(fn), "edges are added for every node kind from its own dependency list", what+": deps/rdeps stop at aliases and the rebuild set after an edit is no longer inside owners + rdeps", c.P.InstrPos(s))
+	}
+	if n == 0 {
+		c.Unknown(rule, "edges-from-all-nodes", "no caller of the edge-adding function outside internal/dag", "-")
+	}
+}
+
+// R20h: file contents enter a target's key through its resolved inputs only. The packages that build the target
+// description never compute a digest: a digest of some file put into the description (a fingerprint entry, say)
+// makes the target depend on a file that `owners` does not attribute to it.
+func ruleNoDigestInDescription(c *Check, rule string) {
+	c.Rule(rule, "no function of the packages that build the target description (loading, model, label) calls a digest function (crypto/*, hash/*, xxh3, internal/hashing): contents reach the key only through Target.Inputs", 1)
+	n, sites := 0, 0
+	for _, fn := range c.P.Funcs {
+		if !(engine.InPackage(fn, "loading") || engine.InPackage(fn, "model") || engine.InPackage(fn, "label")) {
+			continue
+		}
+		if fn.Synthetic != "" {
+			continue
+		}
+		n++
+		for _, s := range engine.SitesIn(fn) {
+			sites++
+			name := engine.CalleeName(s)
+			name = strings.TrimPrefix(strings.TrimPrefix(name, "(*"), "(")
+			if strings.HasPrefix(name, "crypto/") || strings.HasPrefix(name, "hash/") || strings.HasPrefix(name, "github.com/zeebo/xxh3") || strings.HasPrefix(name, "grog/internal/hashing") {
+				c.Bad(rule, "no-digest-in-description/"+c.P.FuncName(fn), "a digest is computed while the target description is built ("+engine.CalleeName(s)+"): whatever it covers becomes part of the target's state without being one of its inputs, so editing it re-executes targets that `owners` does not list", c.P.InstrPos(s))
+			}
+		}
+	}
+	c.OK(rule, "no-digest-in-description", strconv.Itoa(sites)+" call sites in "+strconv.Itoa(n)+" functions of loading, model and label: none calls a digest function", "-")
 }
